@@ -326,3 +326,37 @@ func VerifC15Routes(srv *Server) []VerifC15Route {
 	sort.Slice(r, func(i, j int) bool { return r[i].Key < r[j].Key })
 	return r
 }
+
+// ---- forwarding: a proxied client's packets through Proxy.notify -> Session.write -> Session.next
+
+type VerifC15Q struct {
+	Dev      device.ID
+	ID       uint8
+	Job      uint16
+	Pos, Len uint16
+}
+
+// VerifC15ClientQueue lists the send queue of a (client side) Session, with the fragment position /
+// count of each entry (0/0: not a fragment).
+func VerifC15ClientQueue(s *Session) []VerifC15Q {
+	var r []VerifC15Q
+	if s.peek != nil {
+		r = append(r, verifC15Q(s.peek))
+	}
+	for _, n := range verifC15Snapshot(s.send) {
+		r = append(r, verifC15Q(n))
+	}
+	return r
+}
+func verifC15Q(n *com.Packet) VerifC15Q {
+	q := VerifC15Q{Dev: n.Device, ID: n.ID, Job: n.Job}
+	if n.Flags&com.FlagFrag != 0 {
+		q.Pos, q.Len = n.Flags.Position(), n.Flags.Len()
+	}
+	return q
+}
+
+func VerifC15ClientPending(s *Session) bool { return len(s.send) > 0 || s.peek != nil }
+
+// VerifC15ClientNext is Session.next(false): the next packet (container) the client sends.
+func VerifC15ClientNext(s *Session) *com.Packet { return s.next(false) }
